@@ -106,6 +106,31 @@ pub fn instances() -> Vec<Inst> {
     v
 }
 
+/// The pool plus every number spelling with every unit attached (with and without a blank):
+/// used by the pair space only.
+pub fn instances_with_units() -> Vec<Inst> {
+    let mut v = instances();
+    let ints = ["0", "7", "17", "1_000", "007", "0b101", "0B1_0", "0o17", "0x1F", "0XaB_c", "340282366920938463463374607431768211455"];
+    let floats = ["1.5", "1.", ".5", "0.0", "1e3", "1E+3", "1.5e-3", ".5e1", "1_0.0_1", "12.e2", "1e0", "6.02E23", "20.", "0."];
+    for unit in ["ns", "us", "µs", "ms", "s", "dt", "im"] {
+        for (nums, k) in [(&ints[..], "INT_NUMBER"), (&floats[..], "FLOAT_NUMBER")] {
+            for num in nums {
+                // a hexadecimal literal swallows a following `d`
+                if (num.starts_with("0x") || num.starts_with("0X")) && unit.starts_with('d') {
+                    continue;
+                }
+                if (*num == "3" || *num == "2.5") {
+                    continue;
+                }
+                for glue in ["", " "] {
+                    v.push(Inst { text: format!("{}{}{}", num, glue, unit), expect: vec![(k.into(), (*num).into()), ("IDENT".into(), unit.into())], line: false, header: false });
+                }
+            }
+        }
+    }
+    v
+}
+
 pub const SEPS: &[&str] = &[" ", "\n", "\t", "/*c*/", "//c\n", "  \n ", ""];
 
 fn wordish(c: char) -> bool {
@@ -296,7 +321,7 @@ impl Space for Pairs {
 
 pub fn spaces(tier: Tier, _seed: u64) -> Vec<Box<dyn Space>> {
     let _ = tier;
-    vec![Box::new(Pairs { insts: instances(), triples: false }), Box::new(Pairs { insts: instances(), triples: true })]
+    vec![Box::new(Pairs { insts: instances_with_units(), triples: false }), Box::new(Pairs { insts: instances(), triples: true })]
 }
 
 pub fn self_check() -> Result<(), String> {
